@@ -169,6 +169,9 @@ def run(model: RepoModel, rep, tier: str):
 
 
     check_accumulating_loops(model, rep, "C08.R4")
+    from .c10 import check_summary_accumulates
+    check_summary_accumulates(model, rep, "C08.R7", declare=True)
+    _r8_value_plumbing(model, rep)
     from ..generic import check_accumulators
 
     def _widening(x, guards, pre, fnode=None):
@@ -298,6 +301,102 @@ def check_regex_escape(model: RepoModel, rep, RID: str, only=None):
     rep.analysed[f"regex call sites ({RID})"] = n_re
     return n_re
 
+
+
+def _r8_value_plumbing(model: RepoModel, rep):
+    """C08.R8: three small places where a value or an index is carried from one representation to another; each must be total."""
+    rep.rule("C08.R8", "values are carried over unchanged: a string constant is unquoted by position (one character at each end), never by "
+                       "strip/replace; relocating a callee's indexes into the global space skips only the sentinel -1; the newest versions of "
+                       "a state are all its reaching definitions (the held index alone is used only when none reaches)", 3)
+    # (a) unquoting
+    du = model.module("basics/stmt_def_use_analysis.py")
+    f = next((c.methods["adjust_constant_string"] for c in du.classes.values() if "adjust_constant_string" in c.methods), None)
+    key = "basics/stmt_def_use_analysis.py::adjust_constant_string::unquoted by position"
+    if f is None:
+        raise AnalysisError("adjust_constant_string vanished")
+    p = f.params[1] if len(f.params) > 1 else "value"
+    eats = [c for c in walk_no_nested(f.node) if isinstance(c, ast.Call) and isinstance(c.func, ast.Attribute)
+            and c.func.attr in ("strip", "lstrip", "rstrip", "replace", "translate", "removeprefix", "removesuffix") and isinstance(c.func.value, ast.Name) and c.func.value.id == p]
+    slices = [r for r in walk_no_nested(f.node) if isinstance(r, ast.Return) and isinstance(r.value, ast.Subscript) and isinstance(r.value.slice, ast.Slice)]
+    ok_slice = any(isinstance(r.value.slice.lower, ast.Constant) and r.value.slice.lower.value == 1 and isinstance(r.value.slice.upper, ast.UnaryOp)
+                   and isinstance(r.value.slice.upper.operand, ast.Constant) and r.value.slice.upper.operand.value == 1 for r in slices)
+    if eats:
+        rep.violation("C08.R8", key, du.rel, eats[0].lineno,
+                      f"the quotes of a string constant are removed with `{norm(eats[0])}`: every further quote character at the ends of the "
+                      f"content (a text ending in an escaped quote) is removed too, so the abstract value is not the program's string")
+    elif ok_slice:
+        rep.holds("C08.R8", key, du.rel, slices[0].lineno, f"`{norm(slices[0].value)}`")
+    else:
+        rep.unknown("C08.R8", key, du.rel, f.node.lineno, "unquoting not recognised")
+    # (b) index relocation
+    gs = model.module("core/global_semantics.py")
+    g = next((c.methods["adjust_index_of_status_space"] for c in gs.classes.values() if "adjust_index_of_status_space" in c.methods), None)
+    if g is None:
+        raise AnalysisError("adjust_index_of_status_space vanished")
+    base = g.params[1]
+    n_g = 0
+    for n in walk_no_nested(g.node):
+        if isinstance(n, ast.If) and any(isinstance(x, ast.BinOp) and isinstance(x.op, ast.Add) and any(isinstance(y, ast.Name) and y.id == base for y in (x.left, x.right))
+                                        for b in n.body for x in ast.walk(b)) and isinstance(n.test, ast.Compare) and len(n.test.ops) == 1 \
+                and isinstance(n.test.left, ast.Name):
+            n_g += 1
+            t = n.test
+            c0 = t.comparators[0]
+            cval = -c0.operand.value if isinstance(c0, ast.UnaryOp) and isinstance(c0.op, ast.USub) and isinstance(c0.operand, ast.Constant) else (
+                c0.value if isinstance(c0, ast.Constant) else None)
+            only_sentinel = (isinstance(t.ops[0], ast.NotEq) and cval == -1) or (isinstance(t.ops[0], ast.Gt) and cval == -1) or (isinstance(t.ops[0], ast.GtE) and cval == 0)
+            key = f"core/global_semantics.py::adjust_index_of_status_space::guard #{n_g} skips only the sentinel"
+            if only_sentinel:
+                rep.holds("C08.R8", key, gs.rel, n.lineno, f"`{norm(t)}`")
+            elif cval is not None:
+                rep.violation("C08.R8", key, gs.rel, n.lineno,
+                              f"indexes are relocated only when `{norm(t)}`: index 0 (the first entry of a callee's space -- the operand of the "
+                              f"first statement of a function without parameters and locals) stays unrelocated and then names entry 0 of the "
+                              f"global space, an unrelated state")
+            else:
+                rep.unknown("C08.R8", key, gs.rel, n.lineno, f"guard `{norm(t)}` not recognised")
+    if n_g < 1:
+        raise AnalysisError("adjust_index_of_status_space: no guarded relocation found")
+    # (c) newest versions
+    rs = model.func("core/resolver.py", "Resolver.collect_newest_states_by_state_indexes")
+    cfg = cfg_of(rs.node)
+    reach = {n.targets[0].id for n in walk_no_nested(rs.node) if isinstance(n, ast.Assign) and isinstance(n.targets[0], ast.Name)
+             and isinstance(n.value, ast.BinOp) and isinstance(n.value.op, ast.BitAnd)
+             and any(isinstance(x, ast.Attribute) and x.attr == "defined_states" for x in ast.walk(n.value))}
+    res = {x.id for r in walk_no_nested(rs.node) if isinstance(r, ast.Return) and r.value is not None for x in ast.walk(r.value) if isinstance(x, ast.Name)}
+    key = "core/resolver.py::Resolver.collect_newest_states_by_state_indexes::all reaching versions are collected"
+    if not reach:
+        rep.unknown("C08.R8", key, "core/resolver.py", rs.node.lineno, "reaching-definition set not recognised")
+        return
+    from ..model import enclosing_map
+    enc = enclosing_map(rs.node)
+    bad = None
+    n_adds = 0
+    for node in cfg.g.nodes:
+        for c in cfg.calls_at(node):
+            if not (isinstance(c.func, ast.Attribute) and c.func.attr in ("add", "update") and isinstance(c.func.value, ast.Name) and c.func.value.id in res):
+                continue
+            n_adds += 1
+            truthy = any(lab == "T" and any(isinstance(x, ast.Name) and x.id in reach for x in ast.walk(t.test))
+                         for t, lab in cfg.controlling_branches(node) if isinstance(t, ast.If))
+            if not truthy:
+                continue
+            cur, in_loop = c, False
+            while id(cur) in enc:
+                cur = enc[id(cur)]
+                if isinstance(cur, ast.For) and isinstance(cur.iter, ast.Name) and cur.iter.id in reach:
+                    in_loop = True
+            if not in_loop:
+                bad = c
+    if bad is not None:
+        rep.violation("C08.R8", key, "core/resolver.py", bad.lineno,
+                      f"`{norm(bad)}` adds a single index on a path where reaching definitions of the state exist, instead of collecting all of "
+                      f"them: when the object was written on one branch only and is read through an alias, the version written on that "
+                      f"branch is missing from the value set")
+    elif n_adds:
+        rep.holds("C08.R8", key, "core/resolver.py", rs.node.lineno, "when definitions reach, every one of them is added; the held index is the fallback for none")
+    else:
+        rep.unknown("C08.R8", key, "core/resolver.py", rs.node.lineno, "no additions to the result recognised")
 
 
 SS = "core/stmt_states.py"
@@ -466,6 +565,13 @@ C08_ADJUDICATED.update({
 })
 
 MUTANTS = [
+    ("unquote-by-strip", "basics/stmt_def_use_analysis.py", _t("            return value[1:-1]", "            return value.strip(value[0])"), "adjust_constant_string::unquoted by position"),
+    ("index-zero-not-relocated", "core/global_semantics.py",
+     _t("                if value != -1:\n                    stmt_status.used_symbols[each_id] = value + baseline_index", "                if value > 0:\n                    stmt_status.used_symbols[each_id] = value + baseline_index"),
+     "skips only the sentinel"),
+    ("newest-version-fast-path", "core/resolver.py",
+     _t("                if state_defs:\n                    for each_def in state_defs:", "                if any(each_def.index == state_index for each_def in state_defs):\n                    result.add(state_index)\n                elif state_defs:\n                    for each_def in state_defs:"),
+     "all reaching versions are collected"),
     ("state-merge-first-predecessor-only", "core/prelim_semantics.py",
      _t("        for each_parent_stmt_id in parent_stmt_ids:\n            if each_parent_stmt_id in frame.stmt_id_to_status:\n                in_state_bits |= frame.stmt_id_to_status[each_parent_stmt_id].out_state_bits\n",
         "        for each_parent_stmt_id in parent_stmt_ids:\n            if each_parent_stmt_id in frame.stmt_id_to_status:\n                in_state_bits |= frame.stmt_id_to_status[each_parent_stmt_id].out_state_bits\n                break\n"),
